@@ -1035,7 +1035,18 @@ fn gen_reduce(rng: &mut Rng) -> Case {
     let mut c = Case::new(op);
     let s = rand_shape(rng, 0, 4);
     let r = s.len();
-    c.push(rand_tensor(rng, s, -4, 4));
+    let mut x = rand_tensor(rng, s, -4, 4);
+    if op == "ReduceProd" {
+        // keep every product far from int32 overflow: +-1 everywhere, at most 8 larger factors
+        x.data.iter_mut().for_each(|v| *v = if *v < 0 { -1 } else { 1 });
+        for _ in 0..8 {
+            if !x.data.is_empty() {
+                let k = rng.usize_below(x.data.len());
+                x.data[k] = rng.range_i64(-3, 3);
+            }
+        }
+    }
+    c.push(x);
     if rng.chance(3, 4) {
         let ax = rand_subset(rng, r);
         let mut axes: Vec<i64> = ax.iter().map(|&a| neg_form(rng, a, r)).collect();
